@@ -30,6 +30,7 @@ GenNext ==
        \/ \E k \in Keys, d \in Disp, m \in Methods :
             Start(r, k, d, m) /\ Log([a |-> "Start", p |-> r, k |-> k, d |-> d, m |-> m])
        \/ Lookup(r) /\ Log([a |-> "Lookup", p |-> r])
+       \/ GetBegin(r) /\ Log([a |-> "GetBegin", p |-> r])
        \/ \E res \in LoadChoices : GetStep(r, res) /\ Log([a |-> "GetStep", p |-> r, res |-> res])
        \/ ArriveRecv(r) /\ Log([a |-> "ArriveRecv", p |-> r])
        \/ Woken(r) /\ Log([a |-> "Woken", p |-> r])
